@@ -45,6 +45,8 @@ def run (s : S) (j : Json) : P (S × Json) := do
   | "tpeDisc" =>
     return (s, ratJ (tpeDisc (← parseRatJ (← field j "low")) (← parseRatJ (← field j "high")) (← parseRatJ (← field j "step"))
       (← parseRatJ (← field j "s"))))
+  | "tpeCont" =>
+    return (s, ratJ (tpeCont (← parseRatJ (← field j "low")) (← parseRatJ (← field j "high")) (← parseRatJ (← field j "s"))))
   | "tpeInt" =>
     return (s, intJ (tpeInt (← parseIntS (← field j "low")) (← parseIntS (← field j "high")) (← parseIntS (← field j "step"))
       (← parseRatJ (← field j "s"))))
